@@ -64,6 +64,9 @@ def step(draw, allow_page_ops=True, allow_paths=True, allow_break=True):
     if allow_page_ops and draw(st.integers(0, 14)) == 0:
         return {"op": "restore_page", "n": draw(st.integers(0, 50))}
     sel = {"p": draw(st.integers(0, 50)), "n": draw(st.integers(0, 50))}
+    if draw(st.integers(0, 19)) == 0:
+        # the page stays, all of its notes go (deleted, or moved to another page)
+        return {"op": "strip_page", **sel, "to": draw(st.one_of(st.none(), st.integers(0, 50)))}
     if k == 40 or k == 41:
         return {"op": "break_page", **sel}
     if k == 42:
@@ -242,6 +245,27 @@ class Workdir:
             return f"add_note {rel}: {new}" if self.write(rel, lines) else None
         if not its:
             return None
+        if op == "strip_page":
+            moved = []
+            for s, e in reversed(its):
+                moved[0:0] = lines[s:e]
+                del lines[s:e]
+            others = [p for p in pages if p != rel]
+            if st_.get("to") is None or not others:
+                return f"strip_page {rel} (all {len(its)} notes deleted)" if self.write(rel, lines) else None
+            dest = others[st_["to"] % len(others)]
+            dl = self.read(dest)
+            while dl and dl[-1] == "":
+                dl.pop()
+            dl += [""] + moved + [""]
+            lex, par, _ = P.independent_parse("\n".join(dl))
+            if lex or par:
+                self.skipped += 1
+                return None
+            if not self.write(rel, lines):
+                return None
+            self.write(dest, dl)
+            return f"strip_page {rel} (all {len(its)} notes moved to {dest})"
         s, e = its[st_["n"] % len(its)]
         if op == "append_word":
             w = st_["w"].replace("{today_short}", day[2:4] + day[5:7] + day[8:10]).replace("{today_long}", day.replace("-", ""))
